@@ -38,10 +38,12 @@ from vf.gen import c11_scn as S
 from vf.ref.c11_restore import RestoreModel, ModelError, row as mrow, key as mkey
 
 LEVEL = "fault_enumeration"
-RULE = ("case = (generated scenario, kill point): scenarios are seeded chains of processes on one database path over 8 kinds "
+RULE = ("case = (generated scenario, kill point): scenarios are seeded chains of processes on one database path over 9 kinds "
         "(override flow via analyze_and_overwrite_pages / process_dump with JSON and old-format inputs, plain backup_db + add_page "
-        "overwrites, restore itself killed, second backup, no backup, re-run of the override flow) x start state "
-        "(cleanly closed / killed with un-checkpointed WAL / both) x clean close or not, random page sets (5 namespaces, "
+        "overwrites, restore itself killed, second backup, no backup, re-run of the override flow, backup_db / override flow while a "
+        "second process holds an older read snapshot (BEGIN + SELECT) on the database) x start state "
+        "(cleanly closed / killed with un-checkpointed WAL / both) x clean close or not x database file name (pages.db; every 4th scenario "
+        "one of pages[en].db, p*g?s.db, 'a b.db', a non-ASCII name, a leading dash, a percent sign), random page sets (5 namespaces, "
         "redirects, bodies 0-30 kB) + bulk-overwrite kinds (200-260 pages of 12-20 kB, all overwritten by ONE overwrite_pages() "
         "transaction of 3-6 MB, with / without a preceding backup; kill points SAMPLED: 14 spread over the overwrite loop, the 8 "
         "events around its commit line, every backup_db/close_db_conn line, every op boundary); kill points of the other kinds = EVERY traced source line of create_db, backup_db, close_db_conn, add_page, "
@@ -56,11 +58,15 @@ ASSUMPTIONS = [
     "Wtp.backup_db / Wtp.add_page): they tell the reference model which public-level step was in flight; the verifier process has no hooks",
     "after a restore that is not followed by a new backup both readings of the statement are accepted (restored snapshot or last committed content)",
     "while backup_db() is in flight the original content, the original + its own commit, the new snapshot and a previous completed backup are all accepted",
+    "a reader process a dead victim leaves behind ends by itself (pipe EOF); the verifier starts after it has gone, so "
+    "the files it sees are stable",
+    "delta-minimisation of a disagreement: post-kill files re-verified without -wal/-shm, without the backup file, renamed to "
+    "pages.db*; the same kill point re-run without the concurrent reader",
     "page bodies contain no '<' (template bodies are stored verbatim then) so the expected rows are exactly the rows asked for",
     "a scenario step (not killed) that raises or does not return within 2 x 60 s is reported as a violation of its own "
     "(scenario-step-raises / scenario-step-hangs): the statement presupposes that backup / overwrite / close / reopen complete",
     "kill points are exhaustive per generated scenario (every traced line, every op boundary; thorough: every listed syscall); "
-    "the scenarios themselves are a seeded sample (quick 32, thorough 112); the bulk-overwrite scenarios (quick 3, thorough 12) have "
+    "the scenarios themselves are a seeded sample (quick 36, thorough 126); the bulk-overwrite scenarios (quick 3, thorough 12) have "
     "~10 000 line events each and are sampled (~30-45 points each), so exhaustive is reported False",
 ]
 WALL = {"quick": 900, "thorough": 5400}
@@ -84,7 +90,8 @@ def floors(tier):
          "counters.phase.kill-inside-restoring-Wtp()": 10, "counters.phase.kill-after-restore-in-victim": 10,
          "anchors.core.create_db": 800, "anchors.core.backup_db": 4, "anchors.core.close_db_conn": 100,
          "anchors.dumpparser.analyze_and_overwrite_pages": 1, "anchors.dumpparser.overwrite_pages": 2,
-         "sets.kinds": 4, "sets.starts": 2, "nontrivial": 800}
+         "sets.kinds": 4, "sets.starts": 2, "nontrivial": 800,
+         "counters.victim.with-concurrent-read-snapshot": 50, "sets.dbname-classes": 3}
     if tier == "thorough":
         f.update({"counters.points.syscall": 500, "counters.syscall.pwrite64": 100, "counters.syscall.rename": 1,
                   "counters.syscall.unlink": 1, "sets.kinds": 8, "sets.starts": 3})
@@ -100,7 +107,7 @@ def shards(tier, seed):
 
 def plan(tier, seed):
     """[(si, kind, scale, strace?)] -- scenario si is generated from Random((seed, si)).
-    quick: 4 instances of each of the 8 kinds, ~9 pages, line/op kill points only.
+    quick: 4 instances of each of the 9 kinds, ~9 pages, line/op kill points only.
     thorough: 14 instances of each kind, 6..40 pages; the instances of round 2 and 3 (14 and 24 pages) also get
     every file-mutating syscall as a kill point.  VERIF_C11_REPS overrides the number of rounds (dev/testing)."""
     out = []
@@ -155,7 +162,12 @@ def sample_points(log, seed, si):
 
 def scenario(seed, si, kind, scale):
     rng = random.Random("c11/%d/%d" % (seed, si))
-    return S.gen_scenario(rng, kind, scale)
+    # every 4th regular scenario works on a database whose file name is unusual (kinds rotate with period 9, so every
+    # kind meets every name class over the seeds); the others and the bulk ones use pages.db
+    name = S.DBNAMES[0]
+    if si < 10000 and si % 4 == 1:
+        name = S.DBNAMES[1 + (si // 4 + seed) % (len(S.DBNAMES) - 1)]
+    return S.gen_scenario(rng, kind, scale, name)
 
 
 # ---------------------------------------------------------------------------
@@ -185,6 +197,26 @@ def wait_child(pid, seconds=120):
     finally:
         signal.alarm(0)
         signal.signal(signal.SIGALRM, old)
+
+
+def wait_gone(pids, seconds=20):
+    """Wait until the reader processes a dead victim left behind have gone (they end when the victim's pipe closes)."""
+    deadline = time.time() + seconds
+    for pid in pids:
+        while time.time() < deadline:
+            try:
+                with open("/proc/%d/stat" % pid) as f:
+                    st = f.read().rsplit(")", 1)[1].split()[0]
+                if st == "Z":
+                    break
+            except (FileNotFoundError, ProcessLookupError, IndexError):
+                break
+            time.sleep(0.002)
+        else:
+            try:
+                os.kill(pid, 9)
+            except Exception:
+                pass
 
 
 def fork_collect(fn, seconds=120):
@@ -263,7 +295,7 @@ class Template:
             self._run_setup(script)
 
     def _run_setup(self, script):
-        db = os.path.join(self.dbdir, S.DBNAME)
+        db = os.path.join(self.dbdir, scn_dbname(self.scn))
 
         def child():
             a0 = anchors.snapshot()
@@ -288,9 +320,9 @@ def new_case(tpl, base, name):
     return c
 
 
-def victim_child(tpl, case, kill_at, log):
+def victim_child(tpl, case, kill_at, log, skip_reader=False):
     """Body of the forked victim.  Never returns normally to the caller's code path: os._exit."""
-    db = os.path.join(case, "db", S.DBNAME)
+    db = os.path.join(case, "db", scn_dbname(tpl.scn))
     mark = S.Marker(os.path.join(case, "marks"))
     n = [0]
 
@@ -316,7 +348,7 @@ def victim_child(tpl, case, kill_at, log):
     try:
         S.install_hooks(mark, db)
         sys.settrace(tracer)
-        S.run_script(tpl.scn["victim"], db, tpl.indir, tpl.input_types, mark, point)
+        S.run_script(tpl.scn["victim"], db, tpl.indir, tpl.input_types, mark, point, skip_reader=skip_reader)
         sys.settrace(None)
     except BaseException as e:  # the scenario step itself failed
         sys.settrace(None)
@@ -337,12 +369,39 @@ def record(tpl, base, name="rec"):
     return case, res, st
 
 
-def listing(dbdir):
+def scn_dbname(scn):
+    return scn.get("dbname", S.DBNAME)
+
+
+def backup_name(dbname):
+    stem, dot, ext = dbname.rpartition(".")
+    return stem + "_backup" + dot + ext
+
+
+def canon_name(fn, dbname):
+    """file name in the db dir -> role name as if the database were called pages.db (sigs / counters are name-independent)"""
+    b = backup_name(dbname)
+    if fn.startswith(b):
+        return "pages_backup.db" + fn[len(b):]
+    if fn.startswith(dbname):
+        return "pages.db" + fn[len(dbname):]
+    return fn
+
+
+def real_name(canon, dbname):
+    if canon.startswith("pages_backup.db"):
+        return backup_name(dbname) + canon[len("pages_backup.db"):]
+    if canon.startswith("pages.db"):
+        return dbname + canon[len("pages.db"):]
+    return canon
+
+
+def listing(dbdir, dbname=S.DBNAME):
     out = {}
     try:
         for fn in sorted(os.listdir(dbdir)):
             try:
-                out[fn] = os.path.getsize(os.path.join(dbdir, fn))
+                out[canon_name(fn, dbname)] = os.path.getsize(os.path.join(dbdir, fn))
             except OSError:
                 pass
     except OSError:
@@ -378,8 +437,8 @@ def _open_and_read(db, close):
     return out
 
 
-def verify(dbdir, close_first, obs=None):
-    db = os.path.join(dbdir, S.DBNAME)
+def verify(dbdir, close_first, obs=None, dbname=S.DBNAME):
+    db = os.path.join(dbdir, dbname)
     res = []
     for i, close in ((1, close_first), (2, True)):
         r, st = fork_collect(lambda: _open_and_read(db, close))
@@ -454,24 +513,35 @@ ABLATIONS = [("stale-wal", ["pages.db-wal", "pages.db-shm"]),
              ("backup-file", ["pages_backup.db"])]
 
 
-def diagnose(model, post, base, close_first):
-    """Which single file class has to be there for the disagreement?  (mechanism tag, delta-minimisation)"""
+def diagnose(model, post, base, close_first, dbname=S.DBNAME, name_class=None):
+    """Which single file class has to be there for the disagreement?  (mechanism tag, delta-minimisation)
+    For a database with an unusual file name also: does the disagreement need that name (same files renamed to pages.db*)?"""
     needs = []
     for name, files in ABLATIONS:
-        if not any(os.path.exists(os.path.join(post, f)) for f in files):
+        if not any(os.path.exists(os.path.join(post, real_name(f, dbname))) for f in files):
             continue
         d = os.path.join(base, "abl")
         shutil.rmtree(d, ignore_errors=True)
         shutil.copytree(post, d)
         for f in files:
             try:
-                os.unlink(os.path.join(d, f))
+                os.unlink(os.path.join(d, real_name(f, dbname)))
             except FileNotFoundError:
                 pass
-        _, probs, _ = judge(model, verify(d, close_first))
+        _, probs, _ = judge(model, verify(d, close_first, None, dbname))
         shutil.rmtree(d, ignore_errors=True)
         if not probs:
             needs.append(name)
+    if dbname != S.DBNAME:
+        d = os.path.join(base, "abl")
+        shutil.rmtree(d, ignore_errors=True)
+        os.makedirs(d)
+        for fn in os.listdir(post):
+            shutil.copy(os.path.join(post, fn), os.path.join(d, canon_name(fn, dbname)))
+        _, probs, _ = judge(model, verify(d, close_first, None, S.DBNAME))
+        shutil.rmtree(d, ignore_errors=True)
+        if not probs:
+            needs.append("db-file-name(%s)" % name_class)
     return needs
 
 
@@ -536,6 +606,8 @@ class Monitor:
             if ev[0] == "kill":
                 kill = ev
                 continue
+            if ev[0] == "reader":
+                continue
             if ev[0] == "op" and ev[2] == "b":
                 cur = scripts[pi][ev[1]][0]
             m.feed(ev, scripts[pi])
@@ -553,20 +625,45 @@ class Monitor:
             model, _, _ = self.model_for(tpl, marks)
             model.feed(["proc"])
             dbdir = os.path.join(case, "db")
-            files = listing(dbdir)
+            dbn = scn_dbname(tpl.scn)
+            files = listing(dbdir, dbn)
             post = os.path.join(case, "post")
             shutil.copytree(dbdir, post)
-            expect, probs, _ = judge(model, verify(dbdir, True))
-            tpl.pre_sig = make_sig(expect, probs, diagnose(model, post, case, True), files) if probs else None
+            expect, probs, _ = judge(model, verify(dbdir, True, None, dbn))
+            tpl.pre_sig = make_sig(expect, probs, diagnose(model, post, case, True, dbn, tpl.scn["tags"].get("dbname")), files) if probs else None
             shutil.rmtree(case, ignore_errors=True)
         return tpl.pre_sig
+
+    def rerun_without_reader(self, tpl, case, k, close_first):
+        """Delta: same scenario and kill point, the concurrent reader left out -> still a disagreement?"""
+        c2 = new_case(tpl, case, "noreader")
+        pid = os.fork()
+        if pid == 0:
+            try:
+                victim_child(tpl, c2, k, None, skip_reader=True)
+            finally:
+                os._exit(0)
+        wait_child(pid)
+        marks = S.read_marks(os.path.join(c2, "marks"))
+        try:
+            model, _, _ = self.model_for(tpl, marks)
+        except ModelError:
+            return True
+        _, probs, _ = judge(model, verify(os.path.join(c2, "db"), close_first, None, scn_dbname(tpl.scn)))
+        shutil.rmtree(c2, ignore_errors=True)
+        return bool(probs)
 
     def evaluate(self, tpl, case, casekey, point_desc, close_first, expect_killed):
         """The victim is dead; verify what it left behind."""
         obs = self.obs
         dbdir = os.path.join(case, "db")
-        files = listing(dbdir)
+        dbn = scn_dbname(tpl.scn)
         marks = S.read_marks(os.path.join(case, "marks"))
+        readers = [m[1] for m in marks if m[0] == "reader"]
+        if readers:
+            wait_gone(readers)
+            obs.count("victim.with-concurrent-read-snapshot")
+        files = listing(dbdir, dbn)
         try:
             model, vexc, kill = self.model_for(tpl, marks)
         except ModelError as e:
@@ -613,7 +710,7 @@ class Monitor:
             return out
         post = os.path.join(case, "post")
         shutil.copytree(dbdir, post)
-        res = verify(dbdir, close_first, obs)
+        res = verify(dbdir, close_first, obs, dbn)
         expect, probs, label = judge(model, res, obs)
         obs.count("expect." + expect)
         if model.in_open:
@@ -633,7 +730,11 @@ class Monitor:
         obs.count("verifier.first-open-%s" % ("closes" if close_first else "exits-without-close"))
         obs.maxi("rows_visible", len(res[0].get("rows", ())))
         if probs:
-            needs = diagnose(model, post, case, close_first)
+            needs = diagnose(model, post, case, close_first, dbn, tpl.scn["tags"].get("dbname"))
+            if readers and casekey.get("mode") == "line":
+                if not self.rerun_without_reader(tpl, case, casekey.get("k") or -1, close_first):
+                    # the reader is what it takes; whichever file then carries the wrong content is secondary
+                    needs = ["concurrent-read-snapshot"]
             sig = make_sig(expect, probs, needs, files, model)
             msg = "%s; kill point %s; files at kill %s; rules: %s" % (
                 probs[0][2], point_desc, json.dumps(files), ", ".join(sorted({p[0] + "/" + p[1] for p in probs})))
@@ -667,6 +768,7 @@ class Monitor:
         self.add_anchors(tpl.setup_anchors)
         obs.add("kinds", kind)
         obs.add("starts", scn["tags"]["start"])
+        obs.add("dbname-classes", scn["tags"].get("dbname", "ordinary"))
         for k, v in scn["tags"].items():
             obs.add("scenario-tags", "%s=%s" % (k, v))
         rcase, rec, st = record(tpl, sdir)
@@ -779,7 +881,7 @@ class Monitor:
     def prep_strace_case(self, tpl, sdir, name):
         case = new_case(tpl, sdir, name)
         with open(os.path.join(case, "victim.json"), "w", encoding="utf-8") as f:
-            json.dump({"script": tpl.scn["victim"], "db": os.path.join(case, "db", S.DBNAME), "in": tpl.indir,
+            json.dump({"script": tpl.scn["victim"], "db": os.path.join(case, "db", scn_dbname(tpl.scn)), "in": tpl.indir,
                        "input_types": tpl.input_types}, f)
         return case
 
